@@ -54,6 +54,7 @@ for c in C01 C02 C03 C04 C05 C06 C07 C08 C09 C10 C11 C12 C13 C14 C15 C16 C17; do
   if [ $rc -ge 2 ]; then fired="$fired $c(machinery:$rc)"; echo "$o" | tail -5 > $dest/machinery_$c.txt; fi
 done
 git -C /repo checkout -- .
+git -C /verif checkout -q -- evidence  # evidence written while the seed was applied is not evidence about /repo
 echo "checks_fired:$fired"
 python3 - "$name" "$prop" "$suite" "$with" "$without" "$fired" <<'PY'
 import json,sys
